@@ -41,6 +41,27 @@ for pid in ["C%02d" % i for i in range(1, 20)]:
         claims.append(f"| {pid} | {f['level_claimed']['category']} | {f.get('technique', '')[:110]} | {op} | {fx} |")
     else:
         claims.append(f"| {pid} | not claimed | | {op} | {fx} |")
+# --- trusted base per property, from the evidence the checks wrote
+tb_rows = ["| property | theorems (discharged/stated) | axioms reported by `Print Assumptions` | modelling assumptions recorded by the check |", "|---|---|---|---|"]
+for pid in ["C%02d" % i for i in range(1, 20)]:
+    for name in ([pid, pid + "b"] if pid == "C03" else [pid]):
+        try:
+            e = json.load(open(f"{R}/evidence/{name}.json"))
+        except Exception:
+            continue
+        c = e.get("coverage", {})
+        ax = [t for t in c.get("trusted_base", []) if t.lower().startswith("axioms")]
+        axs = ax[0][7:].strip() if ax else "none (closed under the global context)"
+        asm = "; ".join(a[:160] for a in (e.get("assumptions") or []))[:700].replace("|", "/")
+        tb_rows.append(f"| {name} | {c.get('discharged')}/{c.get('obligations')} | {axs.replace('|', '/')} | {asm} |")
+tb_table = "\n".join(tb_rows)
+built = built.replace("<<TRUSTED_BASE_TABLE>>", tb_table)
+try:
+    chk = open(f"{R}/trusted_base/coqchk.txt").read()
+    tail = chk[-3500:]
+    built = built.replace("<<COQCHK>>", "```\n" + tail + "\n```")
+except Exception:
+    built = built.replace("<<COQCHK>>", "(`tools/coqchk_all.sh` has not been run yet on this tree)")
 parts = [plan, "\n---------------------------------------------------------------------------\n", built,
          "\n### Seeded breakages and which check catches them\n\n" + seed,
          "\n## 14. Claims per property (from manifest.d and known_findings)\n\n" + "\n".join(claims) + "\n",
